@@ -341,7 +341,8 @@ def run_driver(workdir, exe, driver_args=(), timeout=600):
 
 
 def mkscratch(tag):
-    return tempfile.mkdtemp(prefix="flexverif.%s." % tag, dir=SCRATCH_ROOT)
+    import re as _re
+    return tempfile.mkdtemp(prefix="flexverif.%s." % _re.sub(r"[^A-Za-z0-9_.+-]", "_", str(tag))[:40], dir=SCRATCH_ROOT)
 
 
 # ---------------------------------------------------------------- pooled jobs
